@@ -4,6 +4,7 @@ Lemmas about the std-collection stores (`Vec` with `swap_remove`), the enumerati
 -/
 import SophiaProofs.Lemmas.StoreBulk
 import SophiaModel.Model.StoreStd
+import Std.Data.String.ToNat
 
 namespace SophiaProofs.StdP
 open SophiaModel SophiaModel.Term SophiaModel.Store SophiaModel.StdStore SophiaProofs.StoreP
@@ -622,5 +623,227 @@ theorem vec_first_run_bag (n : Nat) (ops : List Op) :
   induction ops with
   | nil => intro d t h; exact h
   | cons op ops ih => intro d t h; exact ih _ _ (vecStepFirst_bag n h op)
+
+/-! ## the bulk pre-load is `insert_all` -/
+
+theorem getIndex_append_of_some {terms : List Term} {t : Term} {i : Nat} (h : getIndex terms t = some i)
+    (ext : List Term) : getIndex (terms ++ ext) t = some i := by
+  unfold getIndex at h ⊢
+  rw [List.findIdx?_append, h]; rfl
+
+theorem getIndex_snoc_none {terms : List Term} {t x : Term} (h : getIndex terms t = none)
+    (hx : termEq x t = false) : getIndex (terms ++ [x]) t = none := by
+  unfold getIndex at h ⊢
+  rw [List.findIdx?_append, h]
+  simp [List.findIdx?_cons, hx]
+
+/-- zipping the image of a zip with the same second list again -/
+theorem zip_map_zip {α β : Type} (G : β → α → α) : ∀ (l : List α) (ps : List β),
+    ((l.zip ps).map (fun x => G x.2 x.1)).zip ps = (l.zip ps).map (fun x => (G x.2 x.1, x.2))
+  | [], _ => by simp
+  | _ :: _, [] => by simp
+  | a :: l, p :: ps => by simp [zip_map_zip G l ps]
+
+/-- one insertion of `(sT, pT, t, default graph)` with `sT`, `pT` known and `t` new: the new term is
+appended, the flag is `true`, and every index gets exactly one new row at its head -/
+theorem insert_fresh_obj {d : StoreDesc} {s : St} (hG : Good d s) {sT pT t : Term} {is ip : Nat}
+    (hs : getIndex s.terms sT = some is) (hp : getIndex s.terms pT = some ip)
+    (ht : getIndex s.terms t = none) (hroom : s.terms.length < s.max) :
+    Store.insert s ⟨sT, pT, t, none⟩ =
+      ({ s with terms := s.terms ++ [t],
+                idx := (s.idx.zip s.shape.perms).map (fun x =>
+                  layout x.2 (freshRow s.shape.n s.max is ip s.terms.length) :: x.1) }, some true) := by
+  obtain ⟨hd, hshape, hinv, hlo⟩ := hG
+  obtain ⟨prim, rest, ps, hP⟩ := hinv.parts
+  obtain ⟨_, _, _, _, hord⟩ := descOK_shape hd
+  have hnlt : ¬ (s.terms.length ≥ s.max) := by omega
+  have hlo' : s.shape.lookupOrder = d.insertOrder := by rw [hshape]; rfl
+  have hn' : s.shape.n = d.n := by rw [hshape]; rfl
+  -- the canonical row
+  have hrow : ∀ c, c ∈ prim → c ≠ freshRow s.shape.n s.max is ip s.terms.length := by
+    intro c hc heq
+    have hr := hP.rows c hc
+    rcases hP.hn with h3 | h4
+    · have := hr.2 2 s.terms.length (by rw [heq]; simp [freshRow, h3])
+      rcases this with h | ⟨h, _⟩
+      · omega
+      · simp [isGPos, h3] at h
+    · have := hr.2 3 s.terms.length (by rw [heq]; simp [freshRow, h4])
+      rcases this with h | ⟨h, _⟩
+      · omega
+      · simp [isGPos, h4] at h
+  have hlenrow : (freshRow s.shape.n s.max is ip s.terms.length).length = s.shape.n := by
+    rcases hP.hn with h3 | h4
+    · simp [freshRow, h3]
+    · simp [freshRow, h4]
+  -- what `ensureAll` computes
+  have hE : ensureAll s.max s.shape.n (quadNames s.shape.n ⟨sT, pT, t, none⟩) s.shape.lookupOrder s.terms [] =
+      (s.terms ++ [t], some (if s.shape.n = 4 then [(0, s.max), (3, s.terms.length), (2, ip), (1, is)]
+        else [(2, s.terms.length), (1, ip), (0, is)])) := by
+    rcases hord with ⟨h4, ho⟩ | ⟨h3, ho⟩
+    · have h4' : s.shape.n = 4 := by rw [hn']; exact h4
+      rw [hlo', ho, h4']
+      simp [ensureAll, quadNames, ensureIndex, hs, hp, ht, hnlt]
+    · have h3' : s.shape.n = 3 := by rw [hn']; exact h3
+      rw [hlo', ho, h3']
+      simp [ensureAll, quadNames, ensureIndex, hs, hp, ht, hnlt]
+  have hrowOf : rowOfAssoc s.shape.n (if s.shape.n = 4 then [(0, s.max), (3, s.terms.length), (2, ip), (1, is)]
+        else [(2, s.terms.length), (1, ip), (0, is)]) = freshRow s.shape.n s.max is ip s.terms.length := by
+    rcases hP.hn with h3 | h4
+    · simp [h3, rowOfAssoc, freshRow, range3, List.lookup]
+    · simp [h4, rowOfAssoc, freshRow, range4, List.lookup]
+  unfold Store.insert
+  simp only [hE, hrowOf]
+  rw [hP.hidx, hP.hperms]
+  simp only []
+  rw [layout_range hlenrow]
+  have hnot : prim.contains (freshRow s.shape.n s.max is ip s.terms.length) = false := by
+    rw [Bool.eq_false_iff]; intro hc
+    exact hrow _ (List.contains_iff_mem.1 hc) rfl
+  simp only [oinsert, hnot, Bool.false_eq_true, if_false, if_true]
+  congr 2
+  simp only [List.zip_cons_cons, List.map_cons, layout_range hlenrow]
+  congr 1
+  apply List.map_congr_left
+  rintro ⟨ix, p⟩ hmem
+  -- the new row is in no secondary index
+  have hnm : ¬ (layout p (freshRow s.shape.n s.max is ip s.terms.length) ∈ ix) := by
+    intro hc'
+    obtain ⟨k, hk1⟩ := List.mem_iff_getElem?.1 hmem
+    rw [List.getElem?_zip_eq_some] at hk1
+    obtain ⟨c', hc'mem, hlay⟩ := (hP.same k ix p hk1.1 hk1.2 _).1 hc'
+    have hpperm : IsPerm s.shape.n p = true := hP.hps p (List.mem_of_getElem? hk1.2)
+    have := layout_inj hpperm (hP.rows c' hc'mem).1 hlenrow hlay
+    exact hrow c' hc'mem this
+  simp [hnm]
+
+
+/-- terms the index has never seen, pairwise different (modulo `Term::eq`) -/
+def FreshList (terms : List Term) : List Term → Prop
+  | [] => True
+  | t :: ts => getIndex terms t = none ∧ (∀ x ∈ ts, termEq t x = false) ∧ FreshList terms ts
+
+theorem FreshList.snoc {terms : List Term} {t : Term} : ∀ {ts : List Term},
+    (∀ x ∈ ts, termEq t x = false) → FreshList terms ts → FreshList (terms ++ [t]) ts
+  | [], _, _ => trivial
+  | x :: ts, h, hf =>
+    ⟨getIndex_snoc_none hf.1 (h x (by simp)), hf.2.1, FreshList.snoc (fun y hy => h y (by simp [hy])) hf.2.2⟩
+
+theorem zip_map_fst {α β : Type} : ∀ (l : List α) (ps : List β), l.length = ps.length →
+    (l.zip ps).map (fun x => x.1) = l
+  | [], [], _ => rfl
+  | a :: l, p :: ps, h => by simp [zip_map_fst l ps (by simpa using h)]
+  | [], _ :: _, h => by simp at h
+  | _ :: _, [], h => by simp at h
+
+theorem bulkFresh_nil {s : St} (hlen : s.idx.length = s.shape.perms.length) (is ip : Nat) :
+    bulkFresh s is ip [] = s := by
+  obtain ⟨sh, mx, terms, idx⟩ := s
+  simp only [bulkFresh, List.append_nil, List.length_nil, List.range_zero, List.map_nil, List.reverse_nil,
+    List.nil_append]
+  congr
+  exact zip_map_fst idx sh.perms hlen
+
+/-- **the bulk pre-load IS `insert_all`**: for a store in a good state, `sT`/`pT` interned at
+`is`/`ip`, never-seen pairwise different objects `ts` and enough room, inserting the quads
+`(sT, pT, t, default graph)` one after the other yields exactly the state `bulkFresh` writes down,
+and every insertion reports a change -/
+theorem bulkFresh_eq_insertAll {d : StoreDesc} {sT pT : Term} {is ip : Nat} : ∀ (ts : List Term) {s : St} (c : Nat),
+    Good d s → getIndex s.terms sT = some is → getIndex s.terms pT = some ip → FreshList s.terms ts →
+    s.terms.length + ts.length ≤ s.max →
+    insertAll s (ts.map (fun t => (⟨sT, pT, t, none⟩ : Quad))) c = (bulkFresh s is ip ts, some (c + ts.length))
+  | [], s, c, hG, _, _, _, _ => by
+    rw [bulkFresh_nil hG.2.2.1.idx_len]; rfl
+  | t :: ts, s, c, hG, hs, hp, hf, hroom => by
+    have hi := insert_fresh_obj hG hs hp hf.1 (by simp at hroom; omega)
+    have hG1 := good_insert hG (⟨sT, pT, t, none⟩ : Quad)
+    rw [hi] at hG1
+    simp only [List.map_cons]
+    rw [insertAll_cons_some _ c hi]
+    simp only [if_true]
+    have ih := bulkFresh_eq_insertAll (sT := sT) (pT := pT) (is := is) (ip := ip) ts (c + 1) hG1
+      (getIndex_append_of_some hs [t]) (getIndex_append_of_some hp [t]) (FreshList.snoc hf.2.1 hf.2.2)
+      (by simp at hroom ⊢; omega)
+    rw [ih]
+    congr 1
+    · -- the two ways of writing the state down agree
+      simp only [bulkFresh, List.append_assoc, List.singleton_append, List.length_cons, List.length_append,
+        List.length_nil]
+      congr 1
+      rw [zip_map_zip (fun p ix => layout p (freshRow s.shape.n s.max is ip s.terms.length) :: ix)]
+      rw [List.map_map]
+      apply List.map_congr_left
+      rintro ⟨ix, p⟩ _
+      simp only [Function.comp]
+      rw [List.range_succ_eq_map, List.map_cons, List.map_map, List.reverse_cons, List.append_assoc,
+        List.singleton_append]
+      congr 2
+      apply List.map_congr_left
+      intro j _
+      simp only [Function.comp]
+      congr 2
+      omega
+    · simp only [List.length_cons]; congr 1; omega
+
+
+/-- pairwise different (modulo `Term::eq`) -/
+def PairwiseNe : List Term → Prop
+  | [] => True
+  | t :: ts => (∀ x ∈ ts, termEq t x = false) ∧ PairwiseNe ts
+
+theorem freshList_of {terms : List Term} : ∀ {ts : List Term},
+    ts.all (fun t => (getIndex terms t).isNone) = true → PairwiseNe ts → FreshList terms ts
+  | [], _, _ => trivial
+  | t :: ts, h, hp => by
+    simp only [List.all_cons, Bool.and_eq_true, Option.isNone_iff_eq_none] at h
+    exact ⟨h.1, hp.1, freshList_of h.2 hp.2⟩
+
+/-- **both paths of `bulkInsert` are `insert_all`** (pairwise different objects, store in a good state) -/
+theorem bulkInsert_eq_insertAll {d : StoreDesc} {s : St} (hG : Good d s) (sT pT : Term) {ts : List Term}
+    (hp : PairwiseNe ts) : bulkInsert s sT pT ts = insertAll s (objQuads sT pT ts) 0 := by
+  unfold bulkInsert
+  cases hs : getIndex s.terms sT with
+  | none => rfl
+  | some is =>
+    cases hpp : getIndex s.terms pT with
+    | none => rfl
+    | some ip =>
+      simp only
+      split
+      · rename_i hc
+        simp only [Bool.and_eq_true, decide_eq_true_eq] at hc
+        have := bulkFresh_eq_insertAll (sT := sT) (pT := pT) ts 0 hG hs hpp (freshList_of hc.1 hp) hc.2
+        rw [objQuads, this]; simp
+      · rfl
+
+theorem fillTerm_ne {a b : Nat} (h : a ≠ b) : termEq (fillTerm a) (fillTerm b) = false := by
+  simp only [fillTerm, termEq, Bool.and_eq_false_iff, beq_eq_false_iff_ne, ne_eq]
+  left
+  intro he
+  apply h
+  exact Nat.repr_injective (String.toList_injective he)
+
+theorem fillTerms_pairwise (off : Nat) : ∀ m, PairwiseNe (fillTerms off m) := by
+  intro m
+  unfold fillTerms
+  suffices ∀ (l : List Nat), l.Nodup → PairwiseNe (l.map (fun j => fillTerm (off + j))) from
+    this _ List.nodup_range
+  intro l
+  induction l with
+  | nil => intro _; trivial
+  | cons a l ih =>
+    intro hnd
+    rw [List.nodup_cons] at hnd
+    refine ⟨?_, ih hnd.2⟩
+    intro x hx
+    obtain ⟨b, hb, rfl⟩ := List.mem_map.1 hx
+    exact fillTerm_ne (by intro h; apply hnd.1; have : a = b := by omega
+                          rw [this]; exact hb)
+
+/-! ## witness for the lookup-order clause of `descOK` -/
+
+/-- a LightDataset whose `insert`/`remove` look the graph name up FIRST (a reordering that keeps the
+property) -/
+def gFirst : StoreDesc := { Gen.genericLightDataset with insertOrder := [0, 1, 2, 3], removeOrder := [0, 1, 2, 3] }
 
 end SophiaProofs.StdP
